@@ -270,7 +270,7 @@ def check_malformed(case):
 
 
 ORACLES = [
-    Oracle("weighted_sum", voigt_case(), check_voigt, classify=lambda c: c["assemblage"], quick=250, thorough=1500),
+    Oracle("weighted_sum", voigt_case(), check_voigt, classify=lambda c: c["assemblage"], quick=250, thorough=5000),
     Oracle(
         "single_aligned_grain",
         st.fixed_dictionaries({"phase": st.integers(0, 1), "stiff": stiffness_spec()}),
